@@ -13,6 +13,7 @@ import (
 
 	wio "github.com/whatap/golib/io"
 	"github.com/whatap/golib/lang/pack"
+	"github.com/whatap/golib/lang/value"
 	"github.com/whatap/golib/logsink/zip"
 	wnet "github.com/whatap/golib/net"
 	"github.com/whatap/golib/util/dateutil"
@@ -198,6 +199,11 @@ func c16Record(id, size int, timeMs int64) *pack.LogSinkPack {
 	p.Time = timeMs
 	p.Category = "c16"
 	p.Line = int64(id)
+	p.Tags.PutString("host", "h"+strconv.Itoa(id%3))
+	p.Tags.PutString("id", strconv.Itoa(id))
+	if id%2 == 0 {
+		p.Fields.PutString("f", strconv.Itoa(id*7))
+	}
 	p.Content = "rec-" + strconv.Itoa(id) + "-" + strings.Repeat("q", size)
 	if id%4 == 1 {
 		// text that does not compress (log lines are not always repetitive)
@@ -504,18 +510,27 @@ func c16Decode(raw []byte) (ids []int, times []int64, encs []int, payload int, z
 		if !strings.HasPrefix(ls.Content, "rec-"+strconv.FormatInt(ls.Line, 10)+"-") {
 			return ids, times, encs, payload, zipped, count, fmt.Errorf("inner record %d has foreign content %.40q", ls.Line, ls.Content)
 		}
+		if exp := c16Record(int(ls.Line), 0, ls.Time); !bytes.Equal(value.WriteValue(wio.NewDataOutputX(), ls.Tags).ToByteArray(), value.WriteValue(wio.NewDataOutputX(), exp.Tags).ToByteArray()) ||
+			!bytes.Equal(value.WriteValue(wio.NewDataOutputX(), ls.Fields).ToByteArray(), value.WriteValue(wio.NewDataOutputX(), exp.Fields).ToByteArray()) {
+			return ids, times, encs, payload, zipped, count, fmt.Errorf("inner record %d does not decode back to what was handed in: tags %s fields %s, expected tags %s fields %s", ls.Line, ls.Tags.ToString(), ls.Fields.ToString(), exp.Tags.ToString(), exp.Fields.ToString())
+		}
 		if ok, on := c16Kind(int(ls.Line)); ls.Pcode != 77 || ls.Oid != int32(ls.Line) || ls.Okind != ok || ls.Onode != on || ls.Category != "c16" {
 			return ids, times, encs, payload, zipped, count, fmt.Errorf("inner record %d does not decode back to what was handed in: pcode=%d oid=%d okind=%d onode=%d category=%q, expected pcode=77 oid=%d okind=%d onode=%d category=\"c16\"", ls.Line, ls.Pcode, ls.Oid, ls.Okind, ls.Onode, ls.Category, ls.Line, ok, on)
 		}
 		ids = append(ids, int(ls.Line))
+		c16Contents[int(ls.Line)] = ls.Content
 		times = append(times, ls.Time)
 		encs = append(encs, int(before-in.Available()))
 	}
 	return
 }
 
+// c16Contents: decoded content per record id of the run being judged (filled by c16Decode)
+var c16Contents = map[int]string{}
+
 func c16After(rc *RunCtx, res *simrt.Result) {
 	d := rc.Data.(*c16Data)
+	c16Contents = map[int]string{}
 	rc.Sample = d
 	mode := "configured"
 	if !d.Configured {
@@ -648,6 +663,11 @@ func c16After(rc *RunCtx, res *simrt.Result) {
 		}
 	}
 	for _, id := range sortedInts(emitted) {
+		if r := d.byID[id]; r != nil {
+			if exp := c16Record(id, r.Size, r.TimeMs).Content; c16Contents[id] != exp {
+				viol("undecodable", fmt.Sprintf("record %d does not decode back to what was handed in: content %.60q (%d bytes), expected %.60q (%d bytes)", id, c16Contents[id], len(c16Contents[id]), exp, len(exp)))
+			}
+		}
 		if d.byID[id] == nil {
 			viol("phantom-record", fmt.Sprintf("record %d emitted but never handed in", id))
 		}
